@@ -1,0 +1,127 @@
+//go:build verif
+
+// Contracts for deductive verification (comment-only; read by /verif/govc, never compiled into the product).
+
+package workflow
+
+// ---------------------------------------------------------------------------------------------------------
+// C11: a role's state and status are the fold of its subtree
+
+//@ ghost pure func roleState(r Role) sm.State =
+//@     if r is *taskRole then r.(*taskRole).state.state
+//@     else if r is *callRole then r.(*callRole).state.state
+//@     else if r is *aggregatorRole then r.(*aggregatorRole).state.state
+//@     else if r is *includeRole then r.(*includeRole).state.state
+//@     else sm.UNKNOWN
+
+//@ ghost pure func roleStatus(r Role) task.Status =
+//@     if r is *taskRole then r.(*taskRole).status.status
+//@     else if r is *callRole then r.(*callRole).status.status
+//@     else if r is *aggregatorRole then r.(*aggregatorRole).status.status
+//@     else if r is *includeRole then r.(*includeRole).status.status
+//@     else task.UNDEFINED
+
+// contribution of a child to its parent's state: non-critical leaves give no opinion (the identity INVARIANT)
+//@ ghost pure func contrib(r Role) sm.State =
+//@     if r is *taskRole && !r.(*taskRole).Critical then sm.INVARIANT
+//@     else if r is *callRole && !r.(*callRole).Critical then sm.INVARIANT
+//@     else roleState(r)
+
+//@ ghost rec func foldState(roles []Role, n int) sm.State =
+//@     if n <= 0 then sm.INVARIANT else foldState(roles, n - 1).X(contrib(roles[n - 1]))
+
+//@ ghost rec func foldStatus(roles []Role, n int) task.Status =
+//@     if n <= 1 then roleStatus(roles[0]) else foldStatus(roles, n - 1).X(roleStatus(roles[n - 1]))
+
+// canonical children sequence of a role (what GetRoles returns; iterators flattened)
+//@ ghost func kids(r Role) []Role
+
+// Interface-method contracts (assumed for every implementation; the roleBase implementation is checked below)
+//@ func (r Role) GetState() (s sm.State)
+//@   noverify
+//@   pure
+//@   ensures s == roleState(r)
+
+//@ func (r Role) GetStatus() (s task.Status)
+//@   noverify
+//@   pure
+//@   ensures s == roleStatus(r)
+
+//@ func (r Role) GetRoles() (rs []Role)
+//@   noverify
+//@   pure
+//@   ensures rs == kids(r)
+
+//@ func aggregateState(roles []Role) (s sm.State)
+//@   property C11
+//@   pure
+//@   ensures s == foldState(roles, len(roles))
+//@   loop 1 invariant #i >= -1 && #i < len(roles)
+//@   loop 1 invariant s == foldState(roles, #i + 1)
+
+//@ lemma foldStatus_undefined_absorbs C11 induction n from k:
+//@     forall roles []Role, k int, n int ::
+//@         k >= 1 && k <= n && foldStatus(roles, k) == task.UNDEFINED ==> foldStatus(roles, n) == task.UNDEFINED
+
+//@ func aggregateStatus(roles []Role) (status task.Status)
+//@   property C11
+//@   modifies nothing
+//@   uses foldStatus_undefined_absorbs
+//@   ensures len(roles) == 0 ==> status == task.UNDEFINED
+//@   ensures len(roles) > 0 ==> status == foldStatus(roles, len(roles))
+//@   loop 1 invariant #i >= -1 && #i < len(roles)
+//@   loop 2 invariant #i >= -1 && #i < len(roles) - 1
+//@   loop 2 invariant status == foldStatus(roles, #i + 2)
+
+// state cell (the SafeState embedded in roleBase) of a role
+//@ ghost pure func stateCell(r Role) *SafeState =
+//@     if r is *taskRole then r.(*taskRole).state
+//@     else if r is *callRole then r.(*callRole).state
+//@     else if r is *aggregatorRole then r.(*aggregatorRole).state
+//@     else if r is *includeRole then r.(*includeRole).state
+//@     else nil
+
+//@ ghost pure func statusCell(r Role) *SafeStatus =
+//@     if r is *taskRole then r.(*taskRole).status
+//@     else if r is *callRole then r.(*callRole).status
+//@     else if r is *aggregatorRole then r.(*aggregatorRole).status
+//@     else if r is *includeRole then r.(*includeRole).status
+//@     else nil
+
+// (The fold in the postconditions is evaluated in the entry state: merge writes nothing but its own cache cell - see the
+// modifies clause - so the children are the same before and after; this avoids an inductive frame lemma.)
+// merge: the cached value of an aggregator is brought back to the fold of its children after one child changed to s.
+// Precondition (established by the caller, the child's updateState): the cache is  R x o  where R is the fold of the
+// other children and o the child's previous contribution, and the children's fold now is  R x s.
+//@ func (t *SafeState) merge(s sm.State, r Role)
+//@   property C11 C03
+//@   modifies t.state
+//@   requires t != nil
+//@   requires !(r is *taskRole) && !(r is *callRole) ==>
+//@       exists R sm.State, o sm.State :: t.state == R.X(o) && foldState(kids(r), len(kids(r))) == R.X(s)
+//@   ensures (r is *taskRole || r is *callRole) ==> t.state == s
+//@   ensures !(r is *taskRole) && !(r is *callRole) ==> t.state == old(foldState(kids(r), len(kids(r))))
+//@   ensures s == sm.ERROR ==> t.state == sm.ERROR
+
+//@ func (t *SafeStatus) merge(s task.Status, r Role)
+//@   property C11
+//@   modifies t.status
+//@   requires t != nil && task.validStatus(s)
+//@   requires !(r is *taskRole) && !(r is *callRole) ==> len(kids(r)) > 0 &&
+//@       exists R task.Status, o task.Status :: task.validStatus(R) && task.validStatus(o) &&
+//@           ((t.status == R.X(o) && foldStatus(kids(r), len(kids(r))) == R.X(s)) ||
+//@            (t.status == o && foldStatus(kids(r), len(kids(r))) == s))
+//@   ensures (r is *taskRole || r is *callRole) ==> t.status == s
+//@   ensures !(r is *taskRole) && !(r is *callRole) ==> t.status == old(foldStatus(kids(r), len(kids(r))))
+
+//@ func (t *SafeState) get() (s sm.State)
+//@   property C11
+//@   pure
+//@   requires t != nil
+//@   ensures s == t.state
+
+//@ func (t *SafeStatus) get() (s task.Status)
+//@   property C11
+//@   pure
+//@   requires t != nil
+//@   ensures s == t.status
